@@ -235,6 +235,30 @@ def shard(task):
             sh.case(spec, sample=spec if len(sh.samples) < 1 else None)
             run(blob, pw, f"sessions {spec['sessions']}", {"writer": "py7zr-sessions", "kinds": sorted({s[0] for s in spec["sessions"]})},
                 {"kind": "sessions", "spec": spec})
+    elif kind == "L":
+        # the layout space of C06 (every single deviation of the default layout per logical member list)
+        from mc.checks import c06
+
+        specs, bound = arg
+        for spec in specs:
+            def body(ch, spec=spec):
+                members, L, pw = c06.build_case(ch, spec)
+                try:
+                    return ref7z.write(members, L, password=pw), pw
+                except Exception:
+                    return None, pw
+
+            def on_exec(ch, res, spec=spec):
+                blob, pw = res
+                if blob is None:
+                    sh.count("reference_cannot_write_not_judged")
+                    return
+                sh.case(("L", spec, ch.choices), sample={"members": spec, "deviations": ch.decoded()} if len(sh.samples) < 1 and ch.cost() else None)
+                devs = sorted({lbl.split("[")[0] for lbl, _ in ch.decoded()})
+                run(blob, pw, f"ref members={spec} deviations={ch.decoded()}", {"writer": "ref-layout", "deviations": devs},
+                    {"kind": "layout", "spec": spec, "choices": ch.choices})
+
+            explore.explore(body, bound, on_exec, prefix=[])
     elif kind == "R":
         for rc in arg:
             blob = ref7z.write(rc["members"], rc["layout"], password=rc["password"])
@@ -292,6 +316,11 @@ def replay(case):
             blob, pw = prod["blob"], prod["password"]
         elif case["kind"] == "sessions":
             blob, pw = session_blob(case["spec"], wd)
+        elif case["kind"] == "layout":
+            from mc.checks import c06
+
+            members, L, pw = c06.build_case(explore.Chooser(list(case["choices"])), case["spec"])
+            blob = ref7z.write(members, L, password=pw)
         else:
             rc = next(r for r in ref_layout_cases() if r["label"] == case["label"])
             blob, pw = ref7z.write(rc["members"], rc["layout"], password=rc["password"]), rc["password"]
@@ -330,6 +359,10 @@ def main(tier="quick", seed=0, only=None):
     specs += mixed_specs(tier)
     tasks += [("S", c) for c in chunks(specs, 10)]
     tasks += [("R", c) for c in chunks(ref_layout_cases(), 4)]
+    from mc.checks import c06
+
+    lists = [sp for sp in c06.logical_lists(tier) if 0 < len(sp) <= (3 if tier == "quick" else 4)] + ["DFEFD", "FDFDF", "EFDLF", "LFLFD"]
+    tasks += [("L", (c, 1)) for c in chunks(lists, 4)]
     with Pool() as pool:
         res = pool.map(f"{MODULE}:shard", tasks, soft=1800)
     for t, r in zip(tasks, res):
@@ -338,7 +371,7 @@ def main(tier="quick", seed=0, only=None):
         rule=(
             f"archives: C01-P3 configurations within {bound} deviation(s) of the default; C07 append sessions (every single session and ordered "
             "pair over 8 member-list kinds incl. directories, empty files, symlinks; thorough: triples), sessions whose folders mix encrypted and unencrypted chains, each also opened WITHOUT the password when the header is readable without it; reference-written layouts (default + "
-            "each single layout deviation, AES, header-only AES, no-streams, empty). Each is written to a file, opened by path and judged: "
+            f"each single layout deviation, AES, header-only AES, no-streams, empty) and the C06 layout space: {len(lists)} logical member lists (every list of <= {3 if tier == 'quick' else 4} entries over file / zero-length / empty file / directory / symlink plus longer interleavings) under EVERY single layout deviation (folder partition, file-less folder, 18 chains, CRC placement, packed CRCs, gaps, dummy padding, 6 header encodings, undefined metadata ...). Each is written to a file, opened by path and judged: "
             "getnames == namelist == list() == files in stored order; sizes and CRCs against the bytes; getinfo for every name with and "
             "without trailing slash, KeyError for absent; archiveinfo() total / blocks / solid / method names / size against the structure "
             "seen by ref7z; needs_password() <=> AES coder or password supplied; is_directory <=> extraction creates a directory."
